@@ -53,17 +53,21 @@ where
         if self.q_vals.len() < 2 {
             return;
         }
-        let mut x: Vec<T> = vec![T::zero(); self.q_vals.len()];
-        let mut y: Vec<T> = vec![T::zero(); self.q_vals.len()];
-        for count in 1..self.q_vals.len() {
+        let mut x: Vec<T> = vec![T::zero(); self.q_vals.len() + 1];
+        let mut y: Vec<T> = vec![T::zero(); self.q_vals.len() + 1];
+        for count in 1..self.q_vals.len() + 1 {
             x[count] = *self.q_vals.get(self.q_vals.len() - count).unwrap();
             y[count] = -T::from(count).expect("can convert");
         }
 
         let mut num = T::zero();
-        for count in 2..self.q_vals.len() {
-            for k in 1..count - 1 {
-                num = num - ((x[count] - x[k]).signum());
+        for count in 2..self.q_vals.len() + 1 {
+            for k in 1..count {
+                if x[count] > x[k] {
+                    num = num - T::one();
+                } else if x[count] < x[k] {
+                    num = num + T::one();
+                }
             }
         }
 
